@@ -2,8 +2,10 @@
 
 Pipeline (spec/C05_Search.tla decides every verdict):
   1. random graphs (deterministic MDPs with zero-cost edges, several / unreachable / no goals,
-     self-loops, dead ends, absorbing starts, ghost edges out of goals) + a random consistent
-     "custom" heuristic each -> batch;
+     self-loops, dead ends, absorbing starts, ghost edges out of goals; about one in seven with huge
+     integer costs beyond 2**53, modelled structurally: see real_cost / InstanceWellFormed) + a random
+     consistent "custom" heuristic each -> batch; state / action labels of the msdm objects are ints,
+     strings, tuples, frozendicts, unorderable mixtures and Python-falsy values (None, 0, '', (), ...);
   2. TLC, mode "mc": exact oracle (cost-to-go, hops, cost-from-start, heuristic menu), the A* / BFS
      reference machines over every configuration (tie rule x randomize_action_order x heuristic)
      and every nondeterministic history, design invariants, one emitted record per outcome;
@@ -73,7 +75,7 @@ INVARIANT RealRunSatisfiesC05
 
 HKS = ("zero", "exact", "half", "custom")     # + "relaxed" (nested search) in three configurations
 DIST_KINDS = ("det", "dictdet", "dict1", "ulist", "utuple", "uset")
-LABEL_KINDS = ("int", "str", "tuple", "frozendict", "mixed")
+LABEL_KINDS = ("int", "str", "tuple", "frozendict", "mixed", "falsy", "falsy")
 
 
 def all_cfgs():
@@ -153,6 +155,34 @@ def consistent_closure(g, h):
 
 
 # --------------------------------------------------------------------------------------------
+# huge integer costs (beyond 2**53), modelled structurally
+# --------------------------------------------------------------------------------------------
+# An instance with cbase = B > 0 stands for the real problem whose edge costs are
+#     real(c) = (c div B) * M + (c mod B),         M = cbig (2**53, 2**53 + 1, 10**18 + 1, 10**30 + 7)
+# The spec works on the abstract costs c (32-bit); real() is additive and order preserving on every sum
+# the search can form as long as the residues (c mod B) of one path never add up to B, which is an
+# instance filter checked by TLC (InstanceWellFormed).  Python integers are exact, so are the real costs.
+BIGS = [2 ** 53, 2 ** 53 + 1, 10 ** 18 + 1, 10 ** 30 + 7]
+CBASE = 1000
+
+
+def real_cost(g, c):
+    B = g.get("cbase", 0)
+    if not B:
+        return c
+    return (c // B) * int(g["cbig"]) + (c % B)
+
+
+def abstract_cost(g, v):
+    """Inverse of real_cost on exact integers; None when v is not the image of an abstract value."""
+    B = g.get("cbase", 0)
+    if not B:
+        return v
+    q, r = divmod(v, int(g["cbig"]))
+    return q * B + r if r < B else None
+
+
+# --------------------------------------------------------------------------------------------
 # graph family
 # --------------------------------------------------------------------------------------------
 COST_MENUS = [(1,), (0, 1), (0, 1, 2, 3), (1, 2, 3, 5), (0, 0, 1, 4), (0, 1, 2, 3, 4), (1, 1, 2)]
@@ -171,6 +201,10 @@ def rand_graph(rng, N, K):
     if pgoal > 0 and not any(g["goal"]) and rng.random() < 0.8:
         g["goal"][rng.randrange(N)] = 1
     g["start"] = rng.randrange(N) + 1
+    g["cbase"], g["cbig"] = 0, "1"
+    if rng.random() < 0.14:              # huge integer costs: multiples of M plus a small residue
+        g["cbase"], g["cbig"] = CBASE, str(rng.choice(BIGS))
+        g["cost"] = [[rng.choice([0, 1, 1, 2, 3]) * CBASE + rng.choice([0, 0, 1, 2, 3]) for _ in range(K)] for _ in range(N)]
     return g
 
 
@@ -207,6 +241,8 @@ def make_graphs(rng, n, sizes):
             continue
         seen.add(key)
         g["cfgs"] = all_cfgs()
+        if g["cbase"]:                   # heuristics must be exact integers there: zero and exact only
+            g["cfgs"] = [c for c in g["cfgs"] if c["hk"] in ("zero", "exact")]
         out.append(g)
     return out
 
@@ -227,6 +263,9 @@ def make_labels(kind, n, prefix, rng):
     elif kind == "mixed":                # mutually unorderable
         pool = [lambda i: i, lambda i: f"{prefix}{i}", lambda i: (prefix, i), lambda i: frozendict(x=i)]
         labs = [pool[i % len(pool)](i) for i in range(n)]
+    elif kind == "falsy":                # legal hashable labels that are falsy in Python (None, 0, '', (), ...)
+        pool = [None, 0, "", (), frozenset(), b"", frozendict(), 0.5, "x", -1]
+        labs = pool[:n]
     else:
         raise ValueError(kind)
     rng.shuffle(labs)                    # label order is unrelated to the abstract order
@@ -266,7 +305,7 @@ def build(g, rep, rng):
     sidx = {l: i for i, l in enumerate(sl)}
     aidx = {l: i for i, l in enumerate(al)}
     as_list = rep["actions_as"] == "list"
-    as_float = rep["reward_as"] == "float"
+    as_float = rep["reward_as"] == "float" and not g.get("cbase")       # huge costs are exact as integers only
     calls = [0]
     cap = 2000 * (N * K + 2)             # a terminating search needs at most N*K successor look-ups
     visits = []                          # event log: [state whose actions were asked for, [actions tried, in order]]
@@ -297,7 +336,7 @@ def build(g, rep, rng):
         i, j = sidx[s], aidx[a]
         if sl[g["nxt"][i][j] - 1] != ns:
             raise KeyError(f"reward asked for a transition that does not exist: {s!r} {a!r} {ns!r}")
-        c = g["cost"][i][j]
+        c = real_cost(g, g["cost"][i][j])
         return -float(c) if as_float else -c
 
     def is_abs(s):
@@ -324,7 +363,12 @@ def build(g, rep, rng):
                 return is_abs(s)
         mdp = _DSP()
     elif cont == "quick_next_state":
-        mdp = QuickMDP(next_state=nxt, initial_state=start, reward=reward, actions=actions, is_absorbing=is_abs)
+        if start is None:                # QuickMDP reads initial_state=None as "not given" (its API, not C05's business)
+            from msdm.core.distributions import DeterministicDistribution
+            mdp = QuickMDP(next_state=nxt, initial_state_dist=DeterministicDistribution(start), reward=reward,
+                           actions=actions, is_absorbing=is_abs)
+        else:
+            mdp = QuickMDP(next_state=nxt, initial_state=start, reward=reward, actions=actions, is_absorbing=is_abs)
     elif cont == "quick":
         mdp = QuickMDP(next_state_dist=lambda s, a: one_point(rep["trans"], nxt(s, a)),
                        initial_state_dist=lambda: one_point(rep["init"], start),
@@ -427,7 +471,7 @@ def _guarded(fn, planner_name, out):
     return False, None
 
 
-def project(res, alg, sidx, aidx, out):
+def project(res, alg, sidx, aidx, out, g=None):
     """Result of plan_on -> abstract (1-based) path, action of the returned policy at every path state,
     path_value, visited."""
     if res is None:
@@ -448,9 +492,15 @@ def project(res, alg, sidx, aidx, out):
         out["acts"] = acts
         if alg == "astar":
             v = res.path_value
-            fv = float(v)
-            out["value"] = int(fv) if fv.is_integer() and abs(fv) < INF else -999
             out["raw_value"] = repr(v)
+            if g is not None and g.get("cbase"):
+                # exact: an integer (or integral float) that is the image of an abstract cost, else "no such cost"
+                iv = v if isinstance(v, int) else (int(v) if float(v).is_integer() else None)
+                av = abstract_cost(g, iv) if iv is not None and iv >= 0 else None
+                out["value"] = av if av is not None and av < INF else -999
+            else:
+                fv = float(v)
+                out["value"] = int(fv) if fv.is_integer() and abs(fv) < INF else -999
     except Exception as e:                                   # noqa: BLE001
         out["path"], out["acts"] = [], []
         out["note"] = f"result could not be projected: {type(e).__name__}: {e}"[:200]
@@ -465,7 +515,7 @@ def project(res, alg, sidx, aidx, out):
 def relaxed_copy(g, start):
     """The relaxed problem behind the "relaxed" heuristic: same graph, costs min(c, 1), given start."""
     return dict(N=g["N"], K=g["K"], avail=g["avail"], nxt=g["nxt"], goal=g["goal"], start=start,
-                cost=[[min(c, 1) for c in row] for row in g["cost"]], hc=[0] * g["N"], cfgs=[])
+                cost=[[min(c, 1) for c in row] for row in g["cost"]], hc=[0] * g["N"], cfgs=[], cbase=0, cbig="1")
 
 
 def nested_heuristic(g, sl, build_seed, sink):
@@ -521,6 +571,7 @@ class Prepared:
         from msdm.algorithms.search import AStarSearch, BreadthFirstSearch
         from msdm.core.mdp.deterministic_shortest_path import DeterministicShortestPathProblem
         self.cfg = cfg
+        self.g = g
         rng = random.Random(build_seed)
         mdp, sl, al, visits = build(g, rep, rng)
         self.sidx = {l: i + 1 for i, l in enumerate(sl)}
@@ -540,7 +591,10 @@ class Prepared:
                 if cfg["hk"] == "relaxed":
                     kw["heuristic_value"] = nested_heuristic(g, sl, build_seed, self.nested)
                 elif not (cfg["hk"] == "zero" and build_seed % 2 == 0):   # every other zero run: the default heuristic
-                    hv = {l: (-math.inf if h2[i] >= INF else -h2[i] / 2) for i, l in enumerate(sl)}
+                    if g.get("cbase"):   # exact integers (h2 is even for the zero and exact heuristics)
+                        hv = {l: (-math.inf if h2[i] >= INF else -real_cost(g, h2[i] // 2)) for i, l in enumerate(sl)}
+                    else:
+                        hv = {l: (-math.inf if h2[i] >= INF else -h2[i] / 2) for i, l in enumerate(sl)}
                     kw["heuristic_value"] = lambda s: hv[s]
                 self.planner = AStarSearch(**kw)
             else:
@@ -554,7 +608,7 @@ class Prepared:
             return self.out
         ok, res = _guarded(lambda: self.planner.plan_on(self.target), self.name, self.out)
         if ok:
-            project(res, self.cfg["alg"], self.sidx, self.aidx, self.out)
+            project(res, self.cfg["alg"], self.sidx, self.aidx, self.out, self.g)
         return self.out
 
 
@@ -578,8 +632,17 @@ def _hashable(x):
 # --------------------------------------------------------------------------------------------
 # judging
 # --------------------------------------------------------------------------------------------
+def gcore(g):
+    return {k: g[k] for k in ("N", "K", "avail", "nxt", "cost", "goal", "start", "hc", "cbase", "cbig") if k in g}
+
+
 def graph_for_tlc(g):
-    return {k: g[k] for k in ("N", "K", "avail", "nxt", "cost", "goal", "start", "hc", "cfgs")}
+    d = gcore(g)
+    d.setdefault("cbase", 0)
+    d.setdefault("cbig", "1")
+    d["cbig"] = str(d["cbig"])           # far beyond 32 bits: a name for TLC, the number for Python
+    d["cfgs"] = g["cfgs"]
+    return d
 
 
 def mc(ctx, graphs, tag="mc"):
@@ -751,7 +814,7 @@ def judge_cases(ctx, graphs, plan, *, tamper=None, quiet_counts=False, trace_eve
                 ctx.count("runs_after_interleaved_conversions")
                 other = seq[1 - pos]
                 scen = {"kind": "pair", "order": order, "this_leg": "a" if p is preps[0][0] else "b",
-                        "partner": {"graph": {k: graphs[other[1] - 1][k] for k in ("N", "K", "avail", "nxt", "cost", "goal", "start", "hc")},
+                        "partner": {"graph": gcore(graphs[other[1] - 1]),
                                     "cfg": other[3], "rep": other[4], "seed": other[5], "build_seed": other[6]}}
                 runs.append({"gid": i, "cid": c, "alg": cfg["alg"], "cfg": cfg, "rep": rep, "seed": sd, "build_seed": bs,
                              "h2": h2, "res": real, "scenario": scen})
@@ -819,7 +882,7 @@ def judge_cases(ctx, graphs, plan, *, tamper=None, quiet_counts=False, trace_eve
         else:
             explained = any(o["phase"] == "done" and outcome_key(o["res"]) == outcome_key(real) for o in exp)
         planner = "AStarSearch" if cfg["alg"] == "astar" else "BreadthFirstSearch"
-        case = {"graph": {k: g[k] for k in ("N", "K", "avail", "nxt", "cost", "goal", "start", "hc")},
+        case = {"graph": gcore(g),
                 "cfg": cfg, "rep": r["rep"], "seed": r["seed"], "build_seed": r["build_seed"], "h2": r["h2"],
                 "real": {k: v for k, v in real.items() if k != "visits"}}
         if "scenario" in r:
@@ -870,7 +933,7 @@ def judge_cases(ctx, graphs, plan, *, tamper=None, quiet_counts=False, trace_eve
         r = runs[nr["outer"]]
         g = graphs[r["gid"] - 1]
         planner = "AStarSearch" if nr["alg"] == "astar" else "BreadthFirstSearch"
-        case = {"graph": {k: g[k] for k in ("N", "K", "avail", "nxt", "cost", "goal", "start", "hc")},
+        case = {"graph": gcore(g),
                 "cfg": r["cfg"], "rep": r["rep"], "seed": r["seed"], "build_seed": r["build_seed"], "h2": r["h2"],
                 "nested": {"relaxed_start": nr["res"] and jgraphs[nr["gid"] - 1]["start"], "rep": nr["rep"],
                            "real": {k: v for k, v in nr["res"].items() if k != "visits"}}}
@@ -926,13 +989,15 @@ def run(ctx):
     rng = random.Random(ctx.seed * 7919 + 5)
     ctx.rule = ("random deterministic shortest-path problems (2-6 nodes quick / 2-8 thorough, 1-3 actions with "
                 "state-dependent availability, costs from menus incl. 0, 0-N absorbing states with ghost out-edges, "
-                "self-loops, dead ends) x {A* x {lifo,fifo,random} x randomize_action_order x {zero,exact,exact/2,"
+                "self-loops, dead ends; ~14% with huge integer costs (multiples of 2^53 .. 10^30 plus small residues, embedded "
+                "order-isomorphically into the spec's integers)) x {A* x {lifo,fifo,random} x randomize_action_order x {zero,exact,exact/2,"
                 "random consistent} heuristic, BFS x randomize_action_order} x seeds x representation; non-trivial = "
                 "a goal is reachable and a strictly worse (cost for A*, steps for BFS) way of reaching a goal exists "
                 "(oracle predicates subcost/subhops), keyed by (graph, configuration)")
     ctx.assumptions = [
         "TLC evaluates the TLA+ oracle correctly (cross-checked against an independent Python implementation on every graph)",
-        "costs are small integers, so path_value is compared exactly (no tolerance is needed: all sums are exact in binary floating point)",
+        "costs are integers, so path_value is compared exactly: small ones are exact in binary floating point, huge ones (beyond 2**53) "
+        "are given as Python integers with integer rewards and integer heuristic values, for which exact arithmetic is available",
         "a heuristic that is +inf cost-to-go (-inf value) at states that cannot reach a goal counts as consistent (it is the exact one)",
         "non-termination is declared after 3 s of process CPU time or 2000*(N*K+2) calls into the MDP on graphs of <= 8 nodes",
     ]
